@@ -44,6 +44,24 @@ def r1_order(ctx):
         raise AnalysisError('C19.R1: __main__.main missing')
     ctx.analysed(mn)
     cfg = cfg_of(mn.node)
+    # "not given by any source" is recognised by IDENTITY with a sentinel object all the way from the config class to the
+    # backend constructor: option values must travel by reference.  dataclasses.asdict / deepcopy re-create every value,
+    # so the sentinel (and any sentinel-like constructor default) arrives as a different object and is passed on as if set.
+    n_copy = 0
+    for mname in ('main', 'config', 'cli'):
+        for f in corpus.module(mname).all_functions:
+            for c in calls_in(f.node):
+                d = dotted(c.func) or ''
+                if d in ('dataclasses.asdict', 'asdict', 'copy.deepcopy', 'deepcopy', 'dataclasses.astuple', 'astuple'):
+                    n_copy += 1
+                    ctx.fail(
+                        'C19.R1',
+                        f'{func_label(f)}|options-travel-by-reference',
+                        loc(f, c),
+                        f'{f.name}: `{src(c, 50)}` deep-copies option values: the "no source set this option" sentinel loses its identity, so an option nobody set is handed to the backend constructor as a value '
+                        '(and a required option that is missing is no longer reported)',
+                    )
+    ctx.count('deep_copies_of_option_values', n_copy)
 
     def is_method(c, recv, meth):
         return isinstance(c.func, ast.Attribute) and c.func.attr == meth and dotted(c.func.value) == recv
